@@ -190,6 +190,17 @@ def judge(d, ot, g, trip, dm):
             bad = np.argwhere(np.asarray(m, dtype=float) != exp)
             r, q = (int(x) for x in bad[0])
             why += ': entry [r=%d, q=%d] is %s, expected %s (%d entries differ)' % (r, q, m[r, q], exp[r, q], len(bad))
+        if ok and ot == 'coo_matrix':
+            # the sparse form ENCODES the triplets: its stored entries (row r, column q, value d) are the triplets (q, r, d) one by one - also
+            # those with d = 0 (identical sequences), which no dense view can show (seeded change C10-r8m2: eliminate_zeros on the result)
+            c = g[1].tocoo()
+            stored = sorted((int(q_), int(r_), Fraction(float(v_)).limit_denominator(10 ** 6)) for r_, q_, v_ in zip(c.row, c.col, c.data))
+            want = sorted((int(a), int(b), Fraction(x)) for a, b, x in trip)
+            if stored != want:
+                lost = [t for t in want if t not in stored][:4]
+                extra = [t for t in stored if t not in want][:4]
+                return False, 'the stored entries of the sparse matrix are not the triplets: %d stored, %d triplets; missing %s, extra %s' % (
+                    len(stored), len(want), [tuple(map(str, t)) for t in lost], [tuple(map(str, t)) for t in extra])
         return ok, why
     except Exception as e:
         return False, 'result not interpretable: %r' % (e,)
@@ -420,6 +431,17 @@ def gen_cases(ctx):
         two = eng in DB_ENGINES or (eng in ('symdel', 'nearest_neighbor') and rng.random() < 0.3)
         add('option_' + choice, eng, seqs, rng.choice(CONTS), rng.choice(['coo_matrix', 'ndarray']), mode, mode[2] if isinstance(mode, list) else 1,
             queries_for(rng, seqs, gens.AA, rng.randint(1, 6)) if two else None, None, opts, model)
+
+    # -- max_returns together with a second collection and a matrix output, on the engines that take a second collection: the matrix has the shape
+    # (len(seqs), len(seqs2)) and encodes the triplets of the same call, whatever the engine makes of max_returns (seeded change C10-r8m3)
+    for eng in ('nearest_neighbor', 'symdel'):
+        for m_ in (1, 2):
+            for ot in ('coo_matrix', 'ndarray'):
+                seqs = star(rng, m_ + 2) + aa_seqs(rng.randint(1, 3))
+                rng.shuffle(seqs)
+                nq = len(seqs) + rng.choice([-2, 3])
+                add('option_max_returns_two_collections', eng, seqs, rng.choice(CONTS), ot, 'lev', 1, queries_for(rng, seqs, gens.AA, max(1, nq)), None,
+                    dict(max_returns=m_), False)
 
     # -- distance values across integer widths and fractions: d = num/den * lev must be carried unchanged
     for num, den in [(100, 1), (255, 1), (256, 1), (65536, 1), (2 ** 24 + 1, 1), (2 ** 31, 1), (2 ** 33, 1), (2 ** 53 - 1, 1), (1, 4), (3, 8), (10 ** 6 + 1, 2)] * (1 if q else 4):
